@@ -432,7 +432,9 @@ class CoreData:
                 skey = key.evolve(subproject=subproject)
                 self.optstore.add_compiler_option(lang, skey, self.optstore.get_value_object(key))
 
-        for key in comp.base_options:
+        # base_options is a set: iterate it in a fixed order, the order in which
+        # options are added to the store is visible (e.g. in intro-buildoptions.json)
+        for key in sorted(comp.base_options, key=str):
             if subproject:
                 skey = key.evolve(subproject=subproject)
             else:
